@@ -154,6 +154,18 @@ def seed_rules(an: Analysis, rep):
                             todo += [x.right, x.left]
                         elif isinstance(x, ast.Call) and isinstance(x.func, ast.Name) and x.func.id == "len" and len(x.args) == 1:
                             terms.append(x.args[0])
+                        elif isinstance(x, ast.IfExp) and isinstance(x.body, ast.Constant) and x.body.value == 1 and isinstance(x.orelse, ast.Constant) and x.orelse.value == 0:
+                            # `1 if args.var_positional else 0`: one slot for an optional single name
+                            tst = x.test
+                            if isinstance(tst, ast.Compare) and len(tst.ops) == 1 and isinstance(tst.ops[0], ast.IsNot) and isinstance(tst.comparators[0], ast.Constant) \
+                                    and tst.comparators[0].value is None:
+                                tst = tst.left
+                            if isinstance(tst, ast.Attribute):
+                                terms.append(tst)
+                            else:
+                                okshape = False
+                        elif isinstance(x, ast.Call) and isinstance(x.func, ast.Name) and x.func.id in ("bool", "int") and len(x.args) == 1 and isinstance(x.args[0], ast.Attribute):
+                            terms.append(x.args[0])
                         else:
                             okshape = False
                     if not okshape or not terms:
@@ -264,29 +276,31 @@ def run(an: Analysis, rep):
     idxname = idx.id if isinstance(idx, ast.Name) else None
     bad = []
     n_eval = 0
-    for i in range(4):
-        for r in range(5):
-            got = err = None
-            # other self attributes read by the override expression are taken as "empty" first (a table
-            # without duplicated entries), then as a generic sequence
-            for filler in (frozenset(), tuple(range(6))):
-                env = {self_: {mapattr: {i: r}}, idxname: i}
-                for a in self_attrs(ov, self_) | used | {"_args"}:
-                    env[self_].setdefault(a, filler)
-                try:
-                    got = feval(ov, env)
-                    err = None
-                    break
-                except (FevalError, KeyError, TypeError) as e:
-                    err = e
-            if err is not None:
-                raise AnalysisError(f"{f.qual}: override expression {norm_src(ov)} not evaluable: {err}")
-            n_eval += 1
-            want = i if r != i else None
-            if got != want:
-                bad.append(f"index={i} rank={r}: override={got!r}, expected {want!r}")
+    extra_attrs = sorted((self_attrs(ov, self_) | used | {"_args"}) - {mapattr})
+    for dup in (frozenset(), frozenset({1}), frozenset({0, 2})):
+        for i in range(4):
+            for r in range(5):
+                # every other self attribute the override expression reads is taken as the set of pinned (duplicated) indices; a
+                # sequence-valued one (the table itself) as a generic sequence
+                got = err = None
+                for filler in (dup, tuple(range(6))):
+                    env = {self_: {mapattr: {i: r}}, idxname: i}
+                    for a in extra_attrs:
+                        env[self_].setdefault(a, filler if a != "_args" else tuple(range(6)))
+                    try:
+                        got = feval(ov, env)
+                        err = None
+                        break
+                    except (FevalError, KeyError, TypeError) as e:
+                        err = e
+                if err is not None:
+                    raise AnalysisError(f"{f.qual}: override expression {norm_src(ov)} not evaluable: {err}")
+                n_eval += 1
+                want = i if (r != i or i in dup) else None
+                if got != want:
+                    bad.append(f"index={i} rank={r} pinned duplicates={sorted(dup)}: override={got!r}, expected {want!r}")
     rep.add("R09.1", f"{f.qual}::override iff rank != index", not bad, loc(f.module, rets[0]),
-            (f"{len(bad)} of {n_eval} domain points wrong, e.g. {bad[0]}") if bad else f"override == (index if rank != index else None) on all {n_eval} (index, rank) points")
+            (f"{len(bad)} of {n_eval} domain points wrong, e.g. {bad[0]}") if bad else f"override == (index if rank != index or index is a pinned duplicate else None) on all {n_eval} (index, rank, duplicates) points")
 
     rep.run(seed_rules, an, rep)
 
